@@ -95,3 +95,6 @@ func (p *StreamPool) VerifQueued() (maxPages, queuedPages int, oldestHead time.T
 	}
 	return
 }
+
+// VerifPageBytes is the number of bytes one page holds.
+const VerifPageBytes = pageBytes
